@@ -5,7 +5,7 @@ From RV Require Import Base.Wire Base.Text Lang.StmtAst Lang.Transl Lang.StmtSem
   Lang.SemFacts Lang.StmtDemo.
 From RV Require Import Lang.StmtSimple.
 From RV Require Import Proofs.SkeletonP Proofs.SimTopP Proofs.SimDemoP Proofs.TranslAcceptP Proofs.SimAcceptP.
-From RV Require Import Lang.FnRet Proofs.FnRetP.
+From RV Require Import Lang.FnRet Proofs.FnRetP Lang.TupleOrder Proofs.TupleOrderP.
 Import ListNotations.
 Open Scope Z_scope.
 
@@ -272,3 +272,38 @@ Theorem C01_helper_mixed_return_refuted :
   ~ same_serial (VF (inject_Z 1)) (VI 1).
 Proof. exact mixed_refuted. Qed.
 Print Assumptions C01_helper_mixed_return_refuted.
+
+(* ================= tuple assignment: evaluation order of the right-hand sides (Lang/TupleOrder.v) =================
+   `t0, ..., tn = e0, ..., en` through the temporaries (at least one target declared already, or any tuple assignment
+   outside module level): the emitted statements are  temporaries ++ bindings  with one temporary per target; the
+   temporaries evaluate e0, e1, ..., en exactly once each, IN SOURCE ORDER, and the bindings evaluate no source expression
+   - so every right-hand side (helper calls with serial lines, delays, pin commands, updates of globals) is evaluated,
+   in Python's order, before the first target is written.  [eval_order]: the source expressions a node list evaluates,
+   in execution order.  Tie: IR of Lang.Transl vs IR of the real parser on generated programs; the order itself is
+   observed on the firmware by the trace oracle (tuple assignments whose first and later elements call effectful helpers). *)
+Theorem C01_tuple_rhs_evaluated_in_source_order : forall glob xs es s ns s',
+  tr_tuple glob xs es s = Some (ns, s') -> through_tmps glob xs s = true ->
+  exists tmps binds,
+    ns = tmps ++ binds /\ length tmps = length xs /\
+    eval_order tmps = map a_id (firstn (length xs) es) /\ eval_order binds = [] /\
+    eval_order ns = map a_id (firstn (length xs) es).
+Proof. exact tuple_order_tmps. Qed.
+Print Assumptions C01_tuple_rhs_evaluated_in_source_order.
+
+(* Declaration of all-new names at module level (no temporaries): the run-time right-hand sides are evaluated in source
+   order; name-free constants become static initialisers. *)
+Theorem C01_tuple_declaration_evaluated_in_source_order : forall xs es s ns s',
+  tr_tuple true xs es s = Some (ns, s') -> through_tmps true xs s = false ->
+  eval_order ns = map a_id (filter (fun e => negb (closed_const e)) (firstn (length xs) es)).
+Proof. exact tuple_order_global. Qed.
+Print Assumptions C01_tuple_declaration_evaluated_in_source_order.
+
+(* non-vacuity: a, b, c = e5, e6, e7 with a, b declared and c new inside a block: three temporaries, order 5 6 7 *)
+Example C01_tuple_order_nonvacuous :
+  let s := declare [98] (declare [97] st0) in
+  let e := fun id => {| a_id := id; a_ty := TyInt; a_const := false; a_fv := [] |} in
+  through_tmps false [[97]; [98]; [99]] s = true /\
+  exists ns s', tr_tuple false [[97]; [98]; [99]] [e 5; e 6; e 7] s = Some (ns, s') /\ eval_order ns = [5; 6; 7] /\
+                length ns = 6%nat.
+Proof. exact tuple_order_demo. Qed.
+Print Assumptions C01_tuple_order_nonvacuous.
